@@ -272,6 +272,11 @@ func (p *MetadataPersister) GetHeaderChildren(ctx context.Context, name string) 
 
 	outhdrs := []*config.Header{}
 	for _, hdr := range headers {
+		// `like` treats `_` and `%` in the name as wildcards and ignores the case of ASCII letters, so match again literally
+		if !strings.HasPrefix(hdr.Name, strings.TrimSuffix(name, "/")+"/") {
+			continue
+		}
+
 		prefix := strings.TrimSuffix(hdr.Name, "/")
 		if name != prefix && name != prefix+"/" {
 			outhdrs = append(outhdrs, converters.DBHeaderToConfigHeader(hdr))
